@@ -272,7 +272,11 @@ func extractPrec(repo, out string) error {
 	}
 	b.WriteString("  | _, _ => false\n\n")
 	b.WriteString("/-- `mayCombine(token.IDENT, next)`. -/\n")
-	fmt.Fprintf(&b, "def mayCombineIdent (c : Char) : Bool := %s\n", strings.ReplaceAll(identRow, "c ==", "c =="))
+	if identRow == "false" {
+		b.WriteString("def mayCombineIdent (_ : Char) : Bool := false\n")
+	} else {
+		fmt.Fprintf(&b, "def mayCombineIdent (c : Char) : Bool := %s\n", identRow)
+	}
 	b.WriteString("\nend GopModel.ExprSyntax.Gen\n")
 	return writeIfChanged(filepath.Join(out, "Prec.lean"), []byte(b.String()))
 }
